@@ -68,8 +68,9 @@ def opPoStrings (toks : List String) : String :=
       match poCreate s st with
       | none => "BadEntity"
       | some p =>
-        let ctxt := match p.msgctxt with | some fr => showText (poEval s fr) | none => "None"
-        s!"{showText (poEval s p.msgid)} {ctxt} {showText (poEval s p.msgstr)}"
+        let sh := fun (fr : List (Nat × Nat)) => match poEval s fr with | some t => showText t | none => "KeyError"
+        let ctxt := match p.msgctxt with | some fr => sh fr | none => "None"
+        s!"{sh p.msgid} {ctxt} {sh p.msgstr}"
     | _, _ => "bad-args"
   | _ => "bad-args"
 
